@@ -569,10 +569,43 @@ def rule_rest(ctx: Ctx) -> None:  # noqa: C901, PLR0915
 
     for f_ in sc.funcs:
         collect(f_.node.body, "", Defs(f_))
+    # every decision made anywhere in the closure together with the decisions it is nested in (an `if` whose body always leaves
+    # puts the statements after it under its negation; conditional expressions count as decisions)
+    chains: list[str] = []
+
+    def leaves(body: list[ast.stmt]) -> bool:
+        # an arm that SELECTS a result; the negation of a rejecting guard (`if bad: raise`) relates nothing to what follows
+        return bool(body) and isinstance(body[-1], ast.Return) and body[-1].value is not None
+
+    def collect_chains(body: list[ast.stmt], outer: str) -> None:
+        for s in body:
+            if isinstance(s, ast.If):
+                t = norm(s.test)
+                chains.append(outer + " && " + t)
+                collect_chains(s.body, outer + " && " + t)
+                collect_chains(s.orelse, outer + " && not " + t)
+                if leaves(s.body):
+                    outer = outer + " && not " + t
+                continue
+            if isinstance(s, (ast.For, ast.AsyncFor, ast.While, ast.With, ast.AsyncWith, ast.Try)):
+                for part in ("body", "orelse", "finalbody"):
+                    collect_chains(getattr(s, part, []) or [], outer)
+                for h in getattr(s, "handlers", []):
+                    collect_chains(h.body, outer)
+                continue
+            if isinstance(s, (ast.FunctionDef, ast.AsyncFunctionDef, ast.ClassDef)):
+                continue
+            conds = [norm(x.test) for x in ast.walk(s) if isinstance(x, ast.IfExp)] + [norm(i_) for x in ast.walk(s) if isinstance(x, ast.comprehension) for i_ in x.ifs]
+            if conds:
+                chains.append(outer + " && " + " && ".join(conds))
+
+    for f_ in sc.funcs:
+        collect_chains(f_.node.body, "")
     for a, b, why in (("nodes", "cpus", "`nodes` and `cpus` together"), ("cpus_per_node", "nodes", "`cpus_per_node` without `nodes`")):
         hit = any(re.search(rf"\b\w+\.{a}\b(?!_)", t) and re.search(rf"\b\w+\.{b}\b(?!_)", t) for t in tests)
         # the same relation tested anywhere in the closure (e.g. in a generator of violation messages whose first item is raised)
-        anywhere = any(re.search(rf"\b\w+\.{a}\b(?!_)", norm(t_.test)) and re.search(rf"\b\w+\.{b}\b(?!_)", norm(t_.test)) for _f, t_ in sc.walk() if isinstance(t_, ast.If))
+        anywhere = any(re.search(rf"\b\w+\.{a}\b(?!_)", norm(t_.test)) and re.search(rf"\b\w+\.{b}\b(?!_)", norm(t_.test)) for _f, t_ in sc.walk() if isinstance(t_, ast.If)) \
+            or any(re.search(rf"\b\w+\.{a}\b(?!_)", t) and re.search(rf"\b\w+\.{b}\b(?!_)", t) for t in chains)
         ctx.tri("5-validated", post, post.node, hit, not hit and not anywhere, f"{why} is tested and rejected", f"no condition relates self.{a} and self.{b}: {why} is accepted",
                 f"{why} is tested, but not as the direct guard of a raise", key=f"exclusion {a}")
     for fname, what in (("_is_valid_wall_time", "wall-time"), ("_convert_to_gb", "memory")):
